@@ -819,6 +819,36 @@ var scenarios = []scenario{
 			}
 		}
 	}},
+	{"edge-encoded-bounds-in-both-directions", "C08 C02 C01 C17", func(s *S) {
+		// every value whose key encoding ends in 0xFF or 0x00 (floats with such a low mantissa byte, times with
+		// such nanoseconds, strings) as an inclusive and exclusive bound, ascending and descending, windowed
+		var docs []map[string]any
+		edge := gen.EdgeValues()
+		for i, v := range edge {
+			docs = append(docs, map[string]any{"_id": fixedID(i + 1), "v": v, "k": int64(i)})
+			if i%3 == 0 {
+				docs = append(docs, map[string]any{"_id": fixedID(500 + i), "v": v, "k": int64(-i)}) // a duplicate of the bound
+			}
+		}
+		docs = append(docs, map[string]any{"_id": fixedID(900), "v": float64(0.5274), "k": int64(1)}, map[string]any{"_id": fixedID(901), "v": float64(0.5274), "k": int64(2)}, map[string]any{"_id": fixedID(902), "v": float64(0.25), "k": int64(3)})
+		s.twins(docs, "v")
+		bounds := append(edge, float64(0.5274))
+		for _, b := range bounds {
+			for _, op := range []model.OpKind{model.OpLtEq, model.OpEq, model.OpLt, model.OpGtEq, model.OpGt} {
+				for _, dir := range []int{-1, 1} {
+					for _, c := range []string{"idx", "plain"} {
+						q := &model.Query{Coll: c, Crit: cmpc(op, "v", b), Sorted: true, Sort: []model.SortOpt{{Field: "v", Dir: dir}}}
+						s.FindAll(q)
+						if s.failed {
+							return
+						}
+					}
+				}
+			}
+			s.FindAll(&model.Query{Coll: "idx", Crit: model.And(cmpc(model.OpGtEq, "v", float64(-3)), cmpc(model.OpLtEq, "v", b)), Sorted: true, Sort: []model.SortOpt{{Field: "v", Dir: -1}}, HasSkip: true, Skip: 1, HasLimit: true, Limit: 3})
+			s.Count(&model.Query{Coll: "idx", Crit: cmpc(model.OpLtEq, "v", b)})
+		}
+	}},
 	{"isolation-prefix-names-shared-ids", "C13 C06", func(s *S) {
 		names := []string{"c", "cc", "c:", "coll:", "", "cx"}
 		docs := numDocs(4)
